@@ -24,4 +24,8 @@ theorem C12_tie_shapes :
     ExoVerif.Gen.oraclePrepareRoundShape.length = 9 ∧ ExoVerif.Gen.oracleSealRoundShape.length = 4 ∧
     ExoVerif.Gen.oracleAppendShape.length = 2 ∧ ExoVerif.Gen.oracleMedianShape.length = 4 := by decide
 
+/-- context.go: SetValidatorPowers re-creates `validatorsPower` before copying the new set and rebuilds
+`totalPower` from it — the `setValidators` of the model (`C12_departed_validator_has_no_weight`). -/
+theorem C12_tie_set_validators_shape : ExoVerif.Gen.oracleSetValidatorsShape.length = 3 := by decide
+
 end ExoVerif.Oracle
